@@ -445,6 +445,44 @@ PROPS["C20"] = dict(
                "repaired in /repo (fix: d7b526b).",
 )
 
+PROPS["C07"] = dict(
+    lean_targets=["SJ.Props.C07", "SJ.Audit.C07"],
+    configs=dict(quick=["fr"], thorough=["fr", "frap", "d"]),
+    gen_keys=["lexical.", "Lexical"],
+    rule="number literals of the property's quantifier, each into f64 (from_str, from_slice, a two-element array through a chunked "
+         "reader, Value::as_f64) and into f32 (str, slice, reader): f64 values sampled across every binary exponent (shortest {:e}, "
+         "shortest {}, 17 significant digits; thorough also 15 and 20), every power of two and its neighbours, every power of ten "
+         "10^-345..10^310 in several spellings and its neighbours, exact decimal expansions (big-integer arithmetic in the harness) of "
+         "midpoints between adjacent doubles and between adjacent f32 values (up to ~770 digits; both ends of the range always), each "
+         "also perturbed by +-1 in the last digit, extended by zeros and by zeros followed by a final 1 (beyond the 768-digit limit), cut "
+         "at 767/768/769 digits, in five spellings (scientific, positional, integer E, 0.ddd e, split); subnormal/overflow boundaries and "
+         "a fixed list of special spellings (exponents beyond i32, leading zeros of the exponent, u64-overflow frontiers of the integer "
+         "and fraction digit loops); random 1-40 digit mantissas with exponents in +-400; spellings that steer into lexical's fast, "
+         "moderate (extended-precision) and big-integer paths; print -> parse of f64/f32 sampled across every exponent (f64pr/f32pr). "
+         "Thorough: all 2^32 f32 bit patterns print -> parse inside the harness (f32all), also in the default build. "
+         "Non-trivial = literal longer than one byte; distinct = distinct lines.",
+    trusted_base=[
+        "Lean 4.33 kernel; axioms propext, Classical.choice, Quot.sound only (checked by #print axioms on every listed theorem)",
+        "tools/extract.py gen_lexical (regex translator: cached powers, small/large power tables, per-type float constants, and the "
+        "shapes of the error/rounding expressions) and the Rust harness + sjdriver correspondence run (differential testing, bit for bit)",
+        "hand-written transcription of src/lexical/* and of the float_roundtrip integration of de.rs (Model.Lexical), tied to the crate "
+        "by the correspondence run; limb-level big-integer arithmetic of lexical/math.rs abstracted by Nat",
+        "IEEE-754 conformance of the hardware multiply/divide/int-to-float cast used by lexical's fast path; rustc's conversion of the "
+        "float literals 1.0..1e22; serde's f32/f64 visitors (`as` casts)",
+    ],
+    assumptions=["ryu prints the shortest text that round-trips (hypothesis RyuShortest of c07_roundtrip); exercised by f64pr/f32pr on "
+                 "every exponent and, for f32, exhaustively by f32all in the thorough tier",
+                 "literals with more than 2^31 digits (exponent arithmetic of exponent.rs saturates) are outside the statement"],
+    partial=[],
+    technique="Lean 4: extracted lexical tables proved against exact powers by kernel evaluation; transcription of lexical and its de.rs "
+              "integration run bit for bit against the crate; independent exact-rational round-to-nearest-even oracle evaluated on the "
+              "crate's output for constructed hard cases (exact midpoints, 768-digit limit, path frontiers)",
+    level_text="Machine-checked: c07_cached_power_accuracy (small cached powers exact, the 66 large ones are the truncated normalised "
+               "64-bit images of 10^k), c07_power_tables.",
+    level_note="Trusted: Lean kernel + 3 standard axioms; extract.py; harness/driver; Model.Lexical transcription validated bit for bit. "
+               "Three open findings of the pinned tree (known_findings.json: C07-zero-tail, C07-f32-negint, C07-moderate-truncated).",
+)
+
 # properties not claimed yet (kept current as checks are added)
 NOT_APPLICABLE = [
     dict(property_id=f"C{i:02d}", reason="check under construction in this build phase; not yet claimed (see DESIGN.md §11 build order)")
